@@ -28,6 +28,10 @@
 (*   pkgCtx.escapingVars (a map) -> sorted  expressions.go:205    es, Sw.sortEsc *)
 (*   declarations in file order, instances  decls.go funcDecls,   PkgToks  *)
 (*     of one object in set order           utils.go:459 ForObj            *)
+(*   pkgCtx.anonTypes: names numbered in    utils.go:569 typeName  ord, pkg *)
+(*     discovery order, package-wide                               count   *)
+(*   link: dead-code elimination by NAME    WriteProgramCode,     LinkUnits *)
+(*     (numeric ids are not compacted)      dce.Selector                   *)
 (*                                                                         *)
 (* Order-insensitive by construction, therefore not state in this model:   *)
 (* dce.Info.deps (sorted, and Selector.AliveDecls returns a SET: Dce.tla), *)
@@ -82,14 +86,32 @@
 (*                  bearing); sortImports off alone: still holds (the list *)
 (*                  is in source order, a function of the sorted files).   *)
 (*                                                                         *)
-(* HARNESS (harness/props/c17).  Runs this module on the exhaustive family *)
-(* of Params.bnd (programs built choice by choice by the Gen actions of    *)
-(* Instances.tla), collects the witness shapes, renders them (and a seeded *)
-(* family of larger programs) as real Go modules and builds each many      *)
-(* times in FRESH compiler processes x listed file permutations x minify   *)
-(* on/off x earlier commands in the session; sha256 of the .js and of the  *)
-(* .js.map must be one value per (program, options); the real instance     *)
-(* orders must be among the final orders of this model.                    *)
+(* WHAT TLC FINDS on the pinned tree (the harness reports the counts):     *)
+(*   F6       packages x and y each instantiate a generic of package z     *)
+(*            (z may be y) through generic code: the ids of z follow the    *)
+(*            range over the package map (112 programs of the pass-through *)
+(*            family with <= 3 declarations).                              *)
+(*   session  an earlier command e instantiates G[I16] of a package the    *)
+(*            later command m uses: m is linked against the archive that   *)
+(*            was compiled for e -- dangling references (the program does  *)
+(*            not run) or shifted ids / anonymous type names.              *)
+(*                                                                         *)
+(* FAMILIES.  Family = "pass": PassShapes below, one choice (exhaustive);  *)
+(* Family = "gen": the Gen actions of Instances.tla over Params.bnd        *)
+(* (exhaustive), its scripted mode (digit strings from VERIF_SEED) or its  *)
+(* given mode (witness shapes, replays; BP.layouts fixes layout and        *)
+(* session history).                                                       *)
+(*                                                                         *)
+(* HARNESS (harness/props/c17).  Runs this module on the families,         *)
+(* collects the witness shapes (also one per load-bearing sort, from the   *)
+(* runs with that sort removed: the shapes on which a regression would     *)
+(* show), renders them and a seeded family of larger programs as real Go   *)
+(* modules and builds each many times in FRESH compiler processes x listed *)
+(* file permutations x minify on/off x earlier commands in the session;    *)
+(* sha256 of the .js and of the .js.map must be one value per (program,    *)
+(* options); the real instance orders must be among the final orders of    *)
+(* this model; a difference is a known finding only where this model       *)
+(* predicts it.                                                            *)
 (***************************************************************************)
 EXTENDS Instances
 
